@@ -40,35 +40,101 @@ theorem connect_decision (c : Crypto) (alg : Alg) (a : Accounts) (zl : Bool) (p 
     (hv : p.v = 3 ∨ p.v = 4 ∨ p.v = 5) (hcid : zl = true ∨ p.cidEmpty = false) (hv3 : p.v ≠ 5 → p.authMethod = none) :
     connectHandler (pluginCfg c alg a zl) p = .ok ↔
       (p.authMethod = none ∧ validate c alg a p.user p.pass = true) := by
-  have hz : (!zl && p.cidEmpty) = false := by rcases hcid with h | h <;> simp [h]
-  unfold connectHandler pluginCfg
-  simp only [hz, Bool.false_eq_true, if_false]
+  have hz : (!(pluginCfg c alg a zl).allowZeroLenCid && p.cidEmpty) = false := by
+    rcases hcid with h | h <;> simp [pluginCfg, h]
+  have hpart := branches_partition p hv hv3
   cases hm : p.authMethod with
   | none =>
-    have h1 : (isV3 p.v || (p.v == 5 && true)) = true := by
-      rcases hv with h | h | h <;> simp [h, isV3]
-    simp only [Option.isNone_none, h1, if_true, true_and]
+    have he : enhancedBranch p = false := by simp [enhancedBranch, hm]
+    have hb : basicBranch p = true := by rw [hpart, he]; rfl
+    rw [connectHandler_of_basic _ p hz hb he]
+    simp only [basicAuth, pluginCfg, true_and]
     cases hval : validate c alg a p.user p.pass with
     | true => simp [basicCode]
-    | false =>
-      rcases hv with h | h | h <;> simp [basicCode, h, isV3]
+    | false => rcases hv with h | h | h <;> simp [basicCode, h, isV3]
   | some m =>
     have h5 : p.v = 5 := by
       by_cases h : p.v = 5
       · exact h
       · have := hv3 h; rw [hm] at this; cases this
-    simp [h5, isV3]
+    have he : enhancedBranch p = true := by simp [enhancedBranch, hm, h5]
+    rw [connectHandler_of_enhanced _ p hz he]
+    simp [enhancedAuth, pluginCfg, hm]
 
-/-- `connect_phase_closed`: a CONNECT carrying an Authentication Method is refused (0x80) when no enhanced-auth hook
-    is installed — valid credentials do not help, and OnBasicAuth is not consulted. -/
+/-- `connect_phase_closed`: a CONNECT carrying an Authentication Method — of ANY length, zero included — is refused (0x80)
+    when no enhanced-auth hook is installed: valid credentials do not help, and OnBasicAuth is not consulted. -/
 theorem connect_phase_closed (cfg : Cfg) (p : ConnectPkt) (m : String)
     (h5 : p.v = 5) (hm : p.authMethod = some m) (hnone : cfg.enh.isNone = true)
     (hcid : cfg.allowZeroLenCid = true ∨ p.cidEmpty = false) :
     connectHandler cfg p = .err 0x80 := by
   have hz : (!cfg.allowZeroLenCid && p.cidEmpty) = false := by rcases hcid with h | h <;> simp [h]
   have he : cfg.enh = none := by cases h : cfg.enh <;> simp [h] at hnone ⊢
-  unfold connectHandler
-  simp [hz, h5, hm, he, isV3]
+  have hb : enhancedBranch p = true := by simp [enhancedBranch, hm, h5]
+  rw [connectHandler_of_enhanced cfg p hz hb]
+  simp [enhancedAuth, hm, he]
+
+/-- the present-but-empty Authentication Method (`0x15 0x00 0x00`) in particular: refused, whatever the credentials -/
+theorem empty_method_fails_closed (c : Crypto) (alg : Alg) (a : Accounts) (zl : Bool) (p : ConnectPkt)
+    (h5 : p.v = 5) (hm : p.authMethod = some "") (hcid : zl = true ∨ p.cidEmpty = false) :
+    connectHandler (pluginCfg c alg a zl) p = .err 0x80 :=
+  connect_phase_closed (pluginCfg c alg a zl) p "" h5 hm rfl (by simpa [pluginCfg] using hcid)
+
+/-- Every CONNECT that `connectHandler` lets through (authenticated, or admitted to the AUTH exchange) went through
+    EXACTLY ONE of the two checks and passed it: either the basic branch was taken, the enhanced one was not, and the
+    OnBasicAuth chain accepted the user name / password (vacuously when no hook exists at all); or the enhanced branch was
+    taken, the basic one was not, and an installed OnEnhancedAuth hook answered success / continue for the packet's
+    method. There is no value of the Authentication Method property — absent, empty, non-empty — for which neither
+    check runs. -/
+theorem accepted_passed_exactly_one (cfg : Cfg) (p : ConnectPkt)
+    (hv : p.v = 3 ∨ p.v = 4 ∨ p.v = 5) (hv3 : p.v ≠ 5 → p.authMethod = none)
+    (hok : ∀ code, connectHandler cfg p ≠ .err code) :
+    (basicBranch p = true ∧ enhancedBranch p = false ∧ basicAuth cfg p = .ok ∧
+      (∀ f, cfg.basic = some f → f p.user p.pass = true)) ∨
+    (basicBranch p = false ∧ enhancedBranch p = true ∧
+      ∃ h m, cfg.enh = some h ∧ p.authMethod = some m ∧
+        (h.onConnect m p.authData = .success ∨ ∃ d, h.onConnect m p.authData = .cont d)) := by
+  have hpart := branches_partition p hv hv3
+  by_cases hz : (!cfg.allowZeroLenCid && p.cidEmpty) = true
+  · exact absurd (by simp [connectHandler, hz]) (hok 0x85)
+  · have hz' : (!cfg.allowZeroLenCid && p.cidEmpty) = false := by simpa using hz
+    cases he : enhancedBranch p with
+    | true =>
+      right
+      have hb : basicBranch p = false := by rw [hpart, he]; rfl
+      refine ⟨hb, rfl, ?_⟩
+      have hch := connectHandler_of_enhanced cfg p hz' he
+      have hm : ∃ m, p.authMethod = some m := by
+        cases h : p.authMethod with
+        | none => simp [enhancedBranch, h] at he
+        | some m => exact ⟨m, rfl⟩
+      obtain ⟨m, hm⟩ := hm
+      cases hh : cfg.enh with
+      | none => exact absurd (by rw [hch]; simp [enhancedAuth, hm, hh]) (hok 0x80)
+      | some h =>
+        refine ⟨h, m, rfl, hm, ?_⟩
+        cases hr : h.onConnect m p.authData with
+        | success => exact Or.inl rfl
+        | cont d => exact Or.inr ⟨d, rfl⟩
+        | fail code => exact absurd (by rw [hch]; simp [enhancedAuth, hm, hh, hr]) (hok code)
+    | false =>
+      left
+      have hb : basicBranch p = true := by rw [hpart, he]; rfl
+      have hch := connectHandler_of_basic cfg p hz' hb he
+      refine ⟨hb, rfl, ?_, ?_⟩
+      · cases hbasic : cfg.basic with
+        | none => simp [basicAuth, hbasic]
+        | some f =>
+          cases hc : basicCode p.v (f p.user p.pass) with
+          | none => simp [basicAuth, hbasic, hc]
+          | some code => exact absurd (by rw [hch]; simp [basicAuth, hbasic, hc]) (hok code)
+      · intro f hf
+        cases hfv : f p.user p.pass with
+        | true => rfl
+        | false =>
+          have : ∃ code, basicCode p.v false = some code := by
+            rcases hv with h | h | h <;> simp [basicCode, h, isV3]
+          obtain ⟨code, hc⟩ := this
+          exact absurd (by rw [hch]; simp [basicAuth, hf, hfv, hc]) (hok code)
 
 /-- On a fresh connection the first CONNECT leads to `accepted` exactly when `connectHandler` says ok (no challenge
     can be pending without an enhanced-auth hook), and the refusal is a CONNACK with a non-zero code. -/
